@@ -945,8 +945,12 @@ Proof. vm_compute. repeat split; reflexivity. Qed.
 
     [iinf_guard] cannot be dropped from the invariant: parameters that every validator accepts
     (A = 2^314 raw, MaxVariance = 3) make CalculateEpochMintProvision overflow LegacyDec, so
-    InitGenesis of x/inflation panics on the chain's own export.  (The same parameters would halt
-    the chain at the next period boundary; governance would have to set them.) *)
+    InitGenesis of x/inflation panics on the chain's own export.  CONFIRMED on the real code by the
+    harness stream "guard-overflow-params" (harness/c18_guard.go): MsgUpdateParams with the gov
+    authority accepts and stores such values, the module's ValidateGenesis accepts the export,
+    InitChain from the export panics ("Int overflow"), and the running chain panics the same way in
+    BeginBlocker at the next period boundary.  Recorded as a known finding (monitor
+    export-of-reachable-state-not-importable, corpus/C18-export-not-importable-overflowing-inflation-params.json). *)
 Definition ex_huge_inf : inf_st :=
   mkInfSt (mkInf [97; 99; 97; 110; 116; 111] (2 ^ 314) 0 0 (8 * 10 ^ 17) (3 * 10 ^ 18) (10 ^ 18) 0 true) 0 0 30 0 0.
 
